@@ -1,14 +1,30 @@
 import IcyVerif.Model.SauceLoad
 set_option linter.unusedSimpArgs false
 /-! Lemmas for Props/C11Load.lean: what the record handed over by `Buffer::from_bytes` does to each of the five binary
-    format loaders of Model/BinFormats.lean (read-only here).  `set_sauce(.., true)` changes width, height and ice mode
-    of the loader's start buffer; every loader overrides some of these:
+    format loaders of Model/BinFormats.lean.  `set_sauce(.., true)` changes width, height, ice mode and font slot 0 (a
+    font NAMED in the record, `BitFont::from_sauce_name`) of the loader's start buffer and KEEPS the record's texts and
+    flags in the buffer (`LBuf.sauce`, for the next save; not part of the picture: `keep`).  Every loader overrides some
+    of these:
 
     * XBin — all of them from its header; iCE Draw — never resizes;
     * ArtWorx, BIN — the heights are overwritten by the first `set_height(y + 1)` / by `crop_loaded_file`;
     * Tundra — the same, by a simulation over the command loop (`tndStep`: one command with the recursive call as data). -/
 namespace IcyVerif.SauceLoad
 open IcyVerif.BinFormats IcyVerif.Gen IcyVerif.XbCompress
+open IcyVerif.Sauce (Sauce)
+
+/-- `BinFormats.fromBytes` (C05) is the composition C11 states its theorems about, with the two outcome levels flattened -/
+theorem fromBytes_is_binformats (f : Fmt) (bytes : List Nat) :
+    BinFormats.fromBytes f bytes =
+      (match SauceLoad.fromBytes BinFormats.dateOk f bytes with
+       | .ok r => r
+       | .err _ => .err
+       | .panic _ => .panic) := by
+  unfold BinFormats.fromBytes SauceLoad.fromBytes
+  cases Sauce.fromBytesSplit BinFormats.dateOk bytes with
+  | ok cs => rfl
+  | err e => rfl
+  | panic p => rfl
 
 /-- the width `Buffer::set_sauce(.., true)` gives the buffer -/
 def ruleW (w : Nat) : Nat := if w = 0 ∨ w > BinFmt.sauceMaxWidth then BinFmt.sauceFallbackWidth else w
@@ -16,12 +32,64 @@ def ruleW (w : Nat) : Nat := if w = 0 ∨ w > BinFmt.sauceMaxWidth then BinFmt.s
 /-- buffer and layer height replaced (what a record does to a start buffer whose width/ice it leaves alone) -/
 def setH (b : LBuf) (h1 h2 : Int) : LBuf := { b with bh := h1, lh := h2 }
 
-theorem setSauce_eq (b : LBuf) (s : Sauce) (hw : ruleW s.w = b.bw) (hl : b.lw = b.bw) (hi : s.useIce = false) :
-    b.setSauce (some s) = setH b s.h s.h := by
-  simp only [LBuf.setSauce, setH]
+/-- the buffer with the record's texts and flags kept for the next save (`Buffer::set_sauce` stores them) -/
+def keep (m : Option Sauce.Meta) (b : LBuf) : LBuf := { b with sauce := m }
+
+/-- "the record's font setting equals the loader's default": it names no font of `SAUCE_FONT_NAMES` (or one that is the
+    loader's default font), so `set_sauce` leaves font slot 0 alone -/
+def fontAtDefault (s : Sauce) : Bool :=
+  match s.font.bind sauceFontByName with
+  | none => true
+  | some f => f == defaultFont
+
+theorem fontAtDefault_fonts (s : Sauce) (hf : fontAtDefault s = true) (f : Font) (h : s.font.bind sauceFontByName = some f) :
+    setFont [(0, defaultFont)] 0 f = [(0, defaultFont)] := by
+  unfold fontAtDefault at hf
+  rw [h] at hf
+  have : f = defaultFont := by simpa using hf
+  subst this
+  simp [setFont]
+
+theorem setSauce_eq (b : LBuf) (s : Sauce) (hw : ruleW s.width = b.bw) (hl : b.lw = b.bw) (hi : s.ice = false)
+    (hfonts : b.fonts = [(0, defaultFont)]) (hf : fontAtDefault s = true) :
+    b.setSauce true (some s) = keep (some (metaOf s)) (setH b s.height s.height) := by
+  simp only [LBuf.setSauce, setH, keep, if_true]
   simp only [ruleW] at hw
-  rw [hw, hi]
-  simp [hl]
+  rw [hw, hi, hfonts]
+  cases h : s.font.bind sauceFontByName with
+  | none => simp [hl, ← hfonts]
+  | some f => simp [hl, fontAtDefault_fonts s hf f h]
+
+/-! ### the kept record rides along through every step of every loader -/
+
+theorem setChar_keep (m : Option Sauce.Meta) (b : LBuf) (x y : Nat) (c : Cell) :
+    (keep m b).setChar x y c = keep m (b.setChar x y c) := by
+  simp only [LBuf.setChar, keep]
+  by_cases h : x ≥ b.lw ∨ (y : Int) ≥ b.lh <;> simp [h]
+
+theorem placeCell_keep (gl gb : Bool) (x0 xl : Nat) (m : Option Sauce.Meta) (b : LBuf) (x y : Nat) (c : Cell) :
+    placeCell gl gb x0 xl (keep m b, x, y) c =
+      (keep m (placeCell gl gb x0 xl (b, x, y) c).1, (placeCell gl gb x0 xl (b, x, y) c).2) := by
+  have e1 : ∀ h : Int, ({ keep m b with lh := h } : LBuf) = keep m { b with lh := h } := fun _ => rfl
+  have e2 : ∀ (b' : LBuf) (h : Int), ({ keep m b' with bh := h } : LBuf) = keep m { b' with bh := h } := fun _ _ => rfl
+  cases gl <;> cases gb <;>
+    simp only [placeCell, if_true, Bool.false_eq_true, if_false, e1, e2, setChar_keep] <;>
+    split <;> rfl
+
+theorem placeAll_keep (gl gb : Bool) (x0 xl : Nat) (m : Option Sauce.Meta) (cells : List Cell) (b : LBuf) (x y : Nat) :
+    placeAll gl gb x0 xl (keep m b) x y cells =
+      (keep m (placeAll gl gb x0 xl b x y cells).1, (placeAll gl gb x0 xl b x y cells).2) := by
+  unfold placeAll
+  induction cells generalizing b x y with
+  | nil => rfl
+  | cons c cs ih =>
+    simp only [List.foldl_cons]
+    rw [placeCell_keep]
+    generalize placeCell gl gb x0 xl (b, x, y) c = r
+    obtain ⟨rb, rx, ry⟩ := r
+    exact ih rb rx ry
+
+theorem crop_keep (m : Option Sauce.Meta) (b : LBuf) : (keep m b).crop = keep m b.crop := rfl
 
 theorem placeCell_setH (x0 xl : Nat) (b : LBuf) (h1 h2 : Int) (x y : Nat) (c : Cell) :
     placeCell true false x0 xl (setH b h1 h2, x, y) c =
@@ -72,76 +140,243 @@ theorem placeAll_crop (x0 xl : Nat) (cells : List Cell) (b : LBuf) (h1 h2 : Int)
 
 /-- equal up to buffer height and layer height -/
 def SameButH (a b : LBuf) : Prop :=
-  a.bw = b.bw ∧ a.lw = b.lw ∧ a.lines = b.lines ∧ a.ice = b.ice ∧ a.pal = b.pal ∧ a.fonts = b.fonts
+  a.bw = b.bw ∧ a.lw = b.lw ∧ a.lines = b.lines ∧ a.ice = b.ice ∧ a.pal = b.pal ∧ a.fonts = b.fonts ∧ a.sauce = b.sauce
 
 theorem SameButH.eq_setH {a b : LBuf} (h : SameButH a b) : b = setH a b.bh b.lh := by
-  obtain ⟨h1, h2, h3, h4, h5, h6⟩ := h
+  obtain ⟨h1, h2, h3, h4, h5, h6, h7⟩ := h
   cases a; cases b
   simp only [setH] at *
-  simp [h1, h2, h3, h4, h5, h6]
+  simp [h1, h2, h3, h4, h5, h6, h7]
 
 theorem placeAll_crop' (x0 xl : Nat) (cells : List Cell) (a b : LBuf) (h : SameButH a b) (x y : Nat) :
     (placeAll true false x0 xl a x y cells).1.crop = (placeAll true false x0 xl b x y cells).1.crop := by
   rw [h.eq_setH, placeAll_crop]
 
-/-! ## the five loaders and the record -/
+/-- equal up to the two heights and the kept record -/
+def SameButHS (a b : LBuf) : Prop :=
+  a.bw = b.bw ∧ a.lw = b.lw ∧ a.lines = b.lines ∧ a.ice = b.ice ∧ a.pal = b.pal ∧ a.fonts = b.fonts
 
-/-- XBin: size and ice mode come from the XBin header — the record changes nothing -/
-theorem xbLoad_record (d : List Nat) (s : Sauce) : xbLoad d (some s) = xbLoad d none := by
-  unfold xbLoad
-  rfl
+theorem placeAll_crop_keep (x0 xl : Nat) (cells : List Cell) (a b : LBuf) (h : SameButHS a b) (x y : Nat) :
+    (placeAll true false x0 xl b x y cells).1.crop = keep b.sauce (placeAll true false x0 xl a x y cells).1.crop := by
+  have e : b = keep b.sauce (setH a b.bh b.lh) := by
+    obtain ⟨h1, h2, h3, h4, h5, h6⟩ := h
+    cases a; cases b
+    simp only [setH, keep] at *
+    simp [h1, h2, h3, h4, h5, h6]
+  have e2 : placeAll true false x0 xl b x y cells = placeAll true false x0 xl (keep b.sauce (setH a b.bh b.lh)) x y cells := by
+    rw [← e]
+  rw [e2, placeAll_keep, crop_keep, placeAll_crop]
 
-/-- iCE Draw: the loader does not resize to the record at all -/
-theorem idfLoad_record (d : List Nat) (s : Sauce) : loadBody .idf d (some s) = loadBody .idf d none := rfl
+def outMap {α β : Type} (f : α → β) : Out α → Out β
+  | .ok a => .ok (f a)
+  | .err => .err
+  | .panic => .panic
 
-/-- ArtWorx: width and ice mode are fixed by the format, the height is recomputed from the rows (`crop_loaded_file`);
-    what is left of the record is the LAYER width -/
-theorem adfLoad_record (d : List Nat) (s : Sauce) (hw : ruleW s.w = BinFmt.adfStartW) :
-    adfLoad d (some s) = adfLoad d none := by
-  simp only [ruleW] at hw
-  unfold adfLoad
-  simp only [LBuf.setSauce, LBuf.start, hw]
+/-! ## the five loaders and the record
+
+Shape of every statement: the buffer loaded WITH the record is the buffer loaded from the content alone plus the kept
+record (`keep`: title, author, group, comments, the two display flags — metadata for the next save, no part of the
+picture).  (Before the merge of the C05 work package the loader model did not keep the record and did not model the font
+named in it; the statements then were plain equalities.  Their meaning is unchanged: every field of the loaded buffer
+that existed then is equal.) -/
+
+/-- what `set_sauce(.., true)` leaves of a start buffer, whatever the record -/
+theorem start_setSauce_rest (w h : Nat) (c : Bool) (s : Sauce) :
+    ((LBuf.start w h c).setSauce true (some s)).lines = (LBuf.start w h c).lines ∧
+    ((LBuf.start w h c).setSauce true (some s)).pal = (LBuf.start w h c).pal ∧
+    ((LBuf.start w h c).setSauce true (some s)).sauce = some (metaOf s) := ⟨rfl, rfl, rfl⟩
+
+theorem start_setSauce_fonts (w h : Nat) (c : Bool) (s : Sauce) (hf : fontAtDefault s = true) :
+    ((LBuf.start w h c).setSauce true (some s)).fonts = [(0, defaultFont)] := by
+  simp only [LBuf.setSauce, LBuf.start, if_true]
+  cases h : s.font.bind sauceFontByName with
+  | none => rfl
+  | some f => exact fontAtDefault_fonts s hf f h
+
+theorem xbBlocks_keep (m : Option Sauce.Meta) (b1 : LBuf) (hasPal hasFont ext : Bool) (fs : Nat) (rest : List Nat) :
+    xbBlocks (keep m b1) hasPal hasFont ext fs rest =
+      outMap (fun r => (keep m r.1, r.2)) (xbBlocks b1 hasPal hasFont ext fs rest) := by
+  unfold xbBlocks
+  cases hasPal <;> cases hasFont <;> cases ext <;>
+    simp only [Bool.false_eq_true, if_false, if_true, false_and, true_and, and_false, and_true, not_false_eq_true, not_true_eq_false] <;>
+    (repeat' split) <;> rfl
+
+theorem xbImage_keep (m : Option Sauce.Meta) (b3 : LBuf) (w : Nat) (comp ice ext : Bool) (rest3 : List Nat) :
+    xbImage (keep m b3) w comp ice ext rest3 = outMap (keep m) (xbImage b3 w comp ice ext rest3) := by
+  unfold xbImage
+  cases (if comp = true then readCompressed rest3 else some (readUncompressed rest3)) with
+  | none => rfl
+  | some ps => simp only [placeAll_keep, crop_keep, outMap]
+
+/-- `xbLoad` with the start buffer (after `set_sauce`) as a parameter -/
+def xbLoadFrom (b0 : LBuf) (data : List Nat) : Out LBuf :=
+  match data with
+  | i0 :: i1 :: i2 :: i3 :: _eof :: wl :: wh :: hl :: hh :: fs0 :: flags :: rest =>
+    if [i0, i1, i2, i3] != [88, 66, 73, 78] then .err
+    else
+      let w := wl + wh * 256
+      if w < 1 ∨ w > 4096 then .err
+      else
+        let h := hl + hh * 256
+        let fs := if fs0 = 0 then 16 else fs0
+        if fs > 32 then .err
+        else
+          let hasPal := flags &&& Xb.flagPalette == Xb.flagPalette
+          let hasFont := flags &&& Xb.flagFont == Xb.flagFont
+          let comp := flags &&& Xb.flagCompress == Xb.flagCompress
+          let ice := flags &&& Xb.flagNonBlink == Xb.flagNonBlink
+          let ext := flags &&& Xb.flag512 == Xb.flag512
+          let b1 : LBuf := { b0 with bw := w, bh := h, lw := w, lh := h, ice := if ice then .ice else .blink }
+          match xbBlocks b1 hasPal hasFont ext fs rest with
+          | .ok (b3, rest3) => xbImage b3 w comp ice ext rest3
+          | .err => .err
+          | .panic => .panic
+  | _ => .err
+
+theorem xbLoad_eq (d : List Nat) (sauce : Option Sauce) :
+    xbLoad d sauce = xbLoadFrom ((LBuf.start BinFmt.xbStartW BinFmt.xbStartH (BinFmt.xbClearsRows == 1)).setSauce true sauce) d := rfl
+
+/-- size and ice mode of the start buffer are overwritten from the XBin header -/
+theorem xbLoadFrom_congr (a b : LBuf) (d : List Nat) (h1 : a.lines = b.lines) (h2 : a.pal = b.pal) (h3 : a.fonts = b.fonts)
+    (h4 : a.sauce = b.sauce) : xbLoadFrom a d = xbLoadFrom b d := by
+  unfold xbLoadFrom
+  simp only [h1, h2, h3, h4]
+
+theorem xbLoadFrom_keep (m : Option Sauce.Meta) (b0 : LBuf) (d : List Nat) :
+    xbLoadFrom (keep m b0) d = outMap (keep m) (xbLoadFrom b0 d) := by
+  unfold xbLoadFrom
+  rcases d with _ | ⟨i0, _ | ⟨i1, _ | ⟨i2, _ | ⟨i3, _ | ⟨eof, _ | ⟨wl, _ | ⟨wh, _ | ⟨hl, _ | ⟨hh, _ | ⟨fs0, _ | ⟨flags, rest⟩⟩⟩⟩⟩⟩⟩⟩⟩⟩⟩ <;>
+    try rfl
+  simp only []
+  generalize (if fs0 = 0 then 16 else fs0) = fs
+  have hb : ∀ (w : Nat) (h : Int) (im : IceMode),
+      ({ keep m b0 with bw := w, bh := h, lw := w, lh := h, ice := im } : LBuf) =
+        keep m { b0 with bw := w, bh := h, lw := w, lh := h, ice := im } := fun _ _ _ => rfl
   split
   · rfl
   · split
     · rfl
     · split
       · rfl
-      · congr 1
-        apply placeAll_crop'
-        exact ⟨rfl, rfl, rfl, rfl, rfl, rfl⟩
+      · rw [hb, xbBlocks_keep]
+        cases xbBlocks _ _ _ _ _ rest with
+        | ok r => exact xbImage_keep _ _ _ _ _ _ _
+        | err => rfl
+        | panic => rfl
 
+/-- XBin: size and ice mode come from the XBin header — a record that names no font changes nothing of the picture -/
+theorem xbLoad_record (d : List Nat) (s : Sauce) (hf : fontAtDefault s = true) :
+    xbLoad d (some s) = outMap (keep (some (metaOf s))) (xbLoad d none) := by
+  rw [xbLoad_eq, xbLoad_eq, ← xbLoadFrom_keep]
+  obtain ⟨e1, e2, e3⟩ := start_setSauce_rest BinFmt.xbStartW BinFmt.xbStartH (BinFmt.xbClearsRows == 1) s
+  exact xbLoadFrom_congr _ _ d e1 e2 (start_setSauce_fonts _ _ _ s hf) e3
+
+/-- `idfLoad` with the start buffer (after `set_sauce(.., false)`) as a parameter -/
+def idfLoadFrom (b1 : LBuf) (data : List Nat) : Out LBuf :=
+  if data.length < BinFmt.idfHeaderSize + BinFmt.idfFontSize + BinFmt.idfPaletteSize then .err
+  else if data.take 4 != BinFmt.idfHeader13 ∧ data.take 4 != BinFmt.idfHeader14 then .err
+  else
+    let x1 := data.getD 4 0 + data.getD 5 0 * 256
+    let y1 := data.getD 6 0 + data.getD 7 0 * 256
+    let x2 := data.getD 8 0 + data.getD 9 0 * 256
+    if x2 < x1 then .err
+    else
+      let b2 : LBuf := { b1 with bw := x2 - x1 + 1 }
+      let dataSize := data.length - BinFmt.idfFontSize - BinFmt.idfPaletteSize
+      let screen := (data.take dataSize).drop BinFmt.idfHeaderSize
+      let scan := idfScan (screen.length + 1) screen
+      let total := (scan.1.map fun it => it.1).sum
+      if total > 0 ∧ y1 + (total - 1) / (x2 - x1 + 1) > BinFmt.idfMaxY then .err
+      else
+      let cells := scan.1.flatMap fun it => List.replicate it.1 (⟨it.2.1, fromU8 true it.2.2⟩ : Cell)
+      let b3 := (placeAll true true x1 x2 b2 x1 y1 cells).1
+      let o := BinFmt.idfHeaderSize + scan.2
+      let fdata := (data.drop o).take BinFmt.idfFontSize
+      let pdata := (data.drop (o + BinFmt.idfFontSize)).take BinFmt.idfPaletteSize
+      .ok { b3 with fonts := (0, mkFont 16 fdata) :: b3.fonts.filter (fun e => e.1 != 0), pal := from63 pdata }
+
+set_option maxRecDepth 10000 in
+theorem idfLoad_eq (d : List Nat) (sauce : Option Sauce) :
+    idfLoad d sauce =
+      idfLoadFrom (({ LBuf.start BinFmt.idfStartW BinFmt.idfStartH (BinFmt.idfClearsRows == 1) with ice := .ice } : LBuf).setSauce false sauce) d := by
+  unfold idfLoad idfLoadFrom
+  simp only []
+
+set_option maxRecDepth 10000 in
+theorem idfLoadFrom_keep (m : Option Sauce.Meta) (b1 : LBuf) (d : List Nat) :
+    idfLoadFrom (keep m b1) d = outMap (keep m) (idfLoadFrom b1 d) := by
+  unfold idfLoadFrom
+  split
+  · rfl
+  · split
+    · rfl
+    · simp only []
+      split
+      · rfl
+      · split
+        · rfl
+        · have hw : ∀ (w : Nat), ({ keep m b1 with bw := w } : LBuf) = keep m { b1 with bw := w } := fun _ => rfl
+          rw [hw, placeAll_keep]
+          simp only [outMap, keep]
+
+/-- iCE Draw: the loader keeps the record but never resizes to it (`set_sauce(.., false)`) -/
+theorem idfLoad_record (d : List Nat) (s : Sauce) :
+    idfLoad d (some s) = outMap (keep (some (metaOf s))) (idfLoad d none) := by
+  rw [idfLoad_eq, idfLoad_eq, ← idfLoadFrom_keep]
+  rfl
+
+/-- ArtWorx: width and ice mode are fixed by the format, font and palette are in the file, the height is recomputed from
+    the rows (`crop_loaded_file`); what is left of the record is the LAYER width -/
+theorem adfLoad_record (d : List Nat) (s : Sauce) (hw : ruleW s.width = BinFmt.adfStartW) :
+    adfLoad d (some s) = outMap (keep (some (metaOf s))) (adfLoad d none) := by
+  simp only [ruleW] at hw
+  unfold adfLoad
+  simp only [LBuf.setSauce, LBuf.start, hw, if_true]
+  split
+  · rfl
+  · split
+    · rfl
+    · split
+      · rfl
+      · simp only [outMap]
+        congr 1
+        refine placeAll_crop_keep _ _ _ _ _ ?_ _ _
+        exact ⟨rfl, rfl, rfl, rfl, rfl, rfl⟩
 
 theorem pairsOf_ne_nil (d : List Nat) (h : 2 ≤ d.length) : pairsOf d ≠ [] := by
   match d, h with
   | a :: b :: rest, _ => simp [pairsOf]
 
-/-- BIN: width and ice mode are the record's (there is no header); the height is the layer height after the last cell —
-    the record's height survives only when the file holds no cell at all -/
-theorem binLoad_record (d : List Nat) (s : Sauce) (hw : ruleW s.w = BinFmt.binStartW) (hi : s.useIce = false)
-    (hh : s.h = BinFmt.binStartH ∨ 2 ≤ d.length) : binLoad d (some s) = binLoad d none := by
-  simp only [ruleW] at hw
+/-- BIN: width, ice mode and font are the record's (there is no header); the height is the layer height after the last
+    cell — the record's height survives only when the file holds no cell at all -/
+theorem binLoad_record (d : List Nat) (s : Sauce) (hw : ruleW s.width = BinFmt.binStartW) (hi : s.ice = false)
+    (hf : fontAtDefault s = true) (hh : s.height = BinFmt.binStartH ∨ 2 ≤ d.length) :
+    binLoad d (some s) = outMap (keep (some (metaOf s))) (binLoad d none) := by
   unfold binLoad
-  simp only [LBuf.setSauce, LBuf.start, hw, hi, Bool.false_eq_true, if_false]
+  have hs := setSauce_eq (LBuf.start BinFmt.binStartW BinFmt.binStartH (BinFmt.binClearsRows == 1)) s hw rfl hi rfl hf
+  have hn : (LBuf.start BinFmt.binStartW BinFmt.binStartH (BinFmt.binClearsRows == 1)).setSauce true none =
+      LBuf.start BinFmt.binStartW BinFmt.binStartH (BinFmt.binClearsRows == 1) := rfl
+  simp only [hs, hn, placeAll_keep, outMap]
+  congr 1
+  have e0 : ∀ b : LBuf, (keep (some (metaOf s)) b).ice = b.ice := fun _ => rfl
+  have e1 : ∀ b : LBuf, (keep (some (metaOf s)) b).bw = b.bw := fun _ => rfl
+  have e2 : ∀ (b : LBuf) (h1 h2 : Int), (setH b h1 h2).ice = b.ice := fun _ _ _ => rfl
+  have e3 : ∀ (b : LBuf) (h1 h2 : Int), (setH b h1 h2).bw = b.bw := fun _ _ _ => rfl
+  simp only [e0, e1, e2, e3]
   rcases hh with hh | hh
   · rw [hh]
-  · have hne : (pairsOf d).map (fun p => ({ ch := p.1, attr := fromU8' IceMode.unlimited p.2 } : Cell)) ≠ [] := by
+    rfl
+  · have hne : (pairsOf d).map (fun p => ({ ch := p.1, attr := fromU8' (LBuf.start BinFmt.binStartW BinFmt.binStartH (BinFmt.binClearsRows == 1)).ice p.2 } : Cell)) ≠ [] := by
       intro h
       exact pairsOf_ne_nil d hh (List.map_eq_nil_iff.mp h)
-    have := placeAll_setH 0 (BinFmt.binStartW - 1) _ hne
-      (LBuf.start BinFmt.binStartW BinFmt.binStartH (BinFmt.binClearsRows == 1)) s.h s.h 0 0
-    simp only [setH, LBuf.start] at this
-    rw [this]
+    rw [placeAll_setH 0 _ _ hne]
+    rfl
 
 
 /-! ## Tundra: the command loop -/
 
 def setBh (h1 : Int) (b : LBuf) : LBuf := { b with bh := h1 }
 def mapBuf (f : LBuf → LBuf) (s : TL) : TL := { s with buf := f s.buf }
-def outMap {α β : Type} (f : α → β) : Out α → Out β
-  | .ok a => .ok (f a)
-  | .err => .err
-  | .panic => .panic
 
 /-! ### one command of the Tundra loader loop -/
 
@@ -156,7 +391,7 @@ def fgStep (cmd : Nat) (rest1 : List Nat) (s : TL) : Out (List Nat × TL) :=
     | _ :: r :: g :: b :: rest2 =>
       let ins := insertColor s.buf.pal (r, g, b)
       .ok (rest2, { s with buf := { s.buf with pal := ins.1 }, fg := ins.2 })
-    | _ => .panic
+    | _ => .err
   else .ok (rest1, s)
 
 def bgStep (cmd : Nat) (rest2 : List Nat) (s2 : TL) : Out (List Nat × TL) :=
@@ -165,7 +400,7 @@ def bgStep (cmd : Nat) (rest2 : List Nat) (s2 : TL) : Out (List Nat × TL) :=
     | _ :: r :: g :: b :: rest3 =>
       let ins := insertColor s2.buf.pal (r, g, b)
       .ok (rest3, { s2 with buf := { s2.buf with pal := ins.1 }, bg := ins.2 })
-    | _ => .panic
+    | _ => .err
   else .ok (rest2, s2)
 
 /-- the body of `tndLoop` for a non-empty input, with the recursive calls as data -/
@@ -179,11 +414,11 @@ def tndStep (cmd : Nat) (rest : List Nat) (s : TL) : Step :=
         | x0 :: x1 :: x2 :: x3 :: rest'' =>
           if be32 x0 x1 x2 x3 ≥ (s.buf.bw : Int) then .err
           else .move rest'' { s with x := be32 x0 x1 x2 x3, y := be32 y0 y1 y2 y3 }
-        | _ => .panic
-    | _ => .panic
+        | _ => .err
+    | _ => .err
   else if cmd > BinFmt.tndCmdAbove ∧ cmd ≤ BinFmt.tndCmdUpTo then
     match rest with
-    | [] => .panic
+    | [] => .err
     | ch :: rest1 =>
       match fgStep cmd rest1 s with
       | .panic => .panic
@@ -451,9 +686,7 @@ def tndLoadFrom (b0 : LBuf) (data : List Nat) : Out LBuf :=
     tndFinish (tndLoop ((data.drop (1 + BinFmt.tndHeader.length)).length + 1) (data.drop (1 + BinFmt.tndHeader.length))
       ⟨{ b0 with pal := [(0, 0, 0)], ice := .ice }, Xb.defaultFg, Xb.defaultBg, 0, 0⟩)
 
-theorem tndLoad_eq (d : List Nat) (sauce : Option Sauce) :
-    tndLoad d sauce =
-      tndLoadFrom ((LBuf.start BinFmt.tndStartW BinFmt.tndStartH (BinFmt.tndClearsRows == 1)).setSauce sauce) d := by
+theorem tndLoad_eq (d : List Nat) (sauce : Option Sauce) : tndLoad d sauce = tndLoadFrom (tndStart sauce) d := by
   unfold tndLoad tndLoadFrom
   split
   · rfl
@@ -487,20 +720,93 @@ theorem tndLoadFrom_setH (b : LBuf) (h1 h2 : Int) (d : List Nat) :
           rw [ht']
           rfl
 
+theorem tndPut_keep (m : Option Sauce.Meta) (s : TL) (ch : Nat) :
+    tndPut (mapBuf (keep m) s) ch = mapBuf (keep m) (tndPut s ch) := by
+  simp only [tndPut, mapBuf, keep, LBuf.setCharI, LBuf.setChar]
+  by_cases h0 : s.x < 0 ∨ s.y < 0 <;> simp only [h0, if_true, if_false]
+  · by_cases h1 : s.x + 1 ≥ (s.buf.bw : Int) <;> simp [h1]
+  · by_cases h2 : s.x.toNat ≥ s.buf.lw ∨ ((s.y.toNat : Nat) : Int) ≥ s.y + 1 <;> simp only [h2, if_true, if_false]
+    · by_cases h1 : s.x + 1 ≥ (s.buf.bw : Int) <;> simp [h1]
+    · by_cases h1 : s.x + 1 ≥ (s.buf.bw : Int) <;> simp [h1]
+
+theorem compat_keep (m : Option Sauce.Meta) : Compat (keep m) := ⟨fun _ => rfl, fun _ => rfl, fun _ _ => rfl⟩
+
+/-- the kept record rides along -/
+theorem tndLoop_keep (m : Option Sauce.Meta) (fuel : Nat) (rest : List Nat) (s : TL) :
+    tndLoop fuel rest (mapBuf (keep m) s) = outMap (mapBuf (keep m)) (tndLoop fuel rest s) := by
+  induction fuel generalizing rest s with
+  | zero => simp only [tndLoop_zero, outMap]
+  | succ fuel ih =>
+    cases rest with
+    | nil => simp only [tndLoop_nil, outMap]
+    | cons cmd rest =>
+      rw [tndLoop_succ, tndLoop_succ, tndStep_map _ (compat_keep m)]
+      cases tndStep cmd rest s with
+      | done => rfl
+      | err => rfl
+      | panic => rfl
+      | move r t => exact ih r t
+      | put r t ch =>
+        show tndLoop fuel r (tndPut (mapBuf (keep m) t) ch) = _
+        rw [tndPut_keep]
+        exact ih r _
+
+theorem tndLoadFrom_keep (m : Option Sauce.Meta) (b : LBuf) (d : List Nat) :
+    tndLoadFrom (keep m b) d = outMap (keep m) (tndLoadFrom b d) := by
+  unfold tndLoadFrom
+  split
+  · rfl
+  · split
+    · rfl
+    · show tndFinish (tndLoop _ _ (mapBuf (keep m)
+          ⟨{ b with pal := [(0, 0, 0)], ice := .ice }, Xb.defaultFg, Xb.defaultBg, 0, 0⟩)) = _
+      rw [tndLoop_keep]
+      cases tndLoop _ _ _ <;> rfl
+
+/-- palette and ice mode of the start buffer are overwritten by the loader -/
+theorem tndLoadFrom_congr (a b : LBuf) (d : List Nat) (h1 : a.bw = b.bw) (h2 : a.bh = b.bh) (h3 : a.lw = b.lw) (h4 : a.lh = b.lh)
+    (h5 : a.lines = b.lines) (h6 : a.fonts = b.fonts) (h7 : a.sauce = b.sauce) : tndLoadFrom a d = tndLoadFrom b d := by
+  unfold tndLoadFrom
+  simp only [h1, h2, h3, h4, h5, h6, h7]
+
+/-- the width the Tundra loader gives its start buffer (since the C05 repair: `set_sauce`'s rule, but a SAUCE width above
+    the sanity limit is taken as it is — the format stores its width nowhere else) -/
+def tndRuleW (w : Nat) : Nat := if w > BinFmt.tndWideAbove then w else ruleW w
+
 /-- Tundra: ice mode and palette are fixed by the format, the final size is the LAYER's; the record's width is the layer
     width, its height is gone after the first cell — and is the height of the loaded buffer when the file places no cell -/
-theorem tndLoad_record (d : List Nat) (s : Sauce) (hw : ruleW s.w = BinFmt.tndStartW) :
-    tndLoad d (some s) = tndLoad d none ∨
+theorem tndLoad_record (d : List Nat) (s : Sauce) (hw : tndRuleW s.width = BinFmt.tndStartW) (hf : fontAtDefault s = true) :
+    tndLoad d (some s) = outMap (keep (some (metaOf s))) (tndLoad d none) ∨
     ∃ g, tndLoad d none = .ok g ∧ g.lines = [] ∧ g.lh = BinFmt.tndStartH ∧ g.bh = BinFmt.tndStartH ∧
-      tndLoad d (some s) = .ok { g with bh := s.h, lh := s.h } := by
-  simp only [ruleW] at hw
+      tndLoad d (some s) = .ok { g with bh := s.height, lh := s.height, sauce := some (metaOf s) } := by
+  have hnw : ¬ s.width > BinFmt.tndWideAbove := by
+    intro h
+    simp only [tndRuleW, h, if_true] at hw
+    rw [hw] at h
+    exact absurd h (by decide)
+  have hw' : ruleW s.width = BinFmt.tndStartW := by simpa only [tndRuleW, hnw, if_false] using hw
   rw [tndLoad_eq, tndLoad_eq]
-  have e : tndLoadFrom ((LBuf.start BinFmt.tndStartW BinFmt.tndStartH (BinFmt.tndClearsRows == 1)).setSauce (some s)) d =
-      tndLoadFrom (setH (LBuf.start BinFmt.tndStartW BinFmt.tndStartH (BinFmt.tndClearsRows == 1)) s.h s.h) d := by
-    unfold tndLoadFrom
-    simp only [LBuf.setSauce, hw]
-    rfl
-  rw [e]
-  exact tndLoadFrom_setH _ s.h s.h d
+  have e : tndLoadFrom (tndStart (some s)) d = tndLoadFrom (keep (some (metaOf s))
+      (setH (LBuf.start BinFmt.tndStartW BinFmt.tndStartH (BinFmt.tndClearsRows == 1)) s.height s.height)) d := by
+    simp only [ruleW] at hw'
+    have hst : tndStart (some s) = (LBuf.start BinFmt.tndStartW BinFmt.tndStartH (BinFmt.tndClearsRows == 1)).setSauce true (some s) := by
+      unfold tndStart
+      simp only [hnw, if_false]
+    rw [hst]
+    apply tndLoadFrom_congr
+    · simp only [LBuf.setSauce, if_true, hw']; rfl
+    · rfl
+    · simp only [LBuf.setSauce, if_true, hw']; rfl
+    · rfl
+    · rfl
+    · exact start_setSauce_fonts _ _ _ s hf
+    · rfl
+  have en : tndStart none = LBuf.start BinFmt.tndStartW BinFmt.tndStartH (BinFmt.tndClearsRows == 1) := rfl
+  rw [e, en, tndLoadFrom_keep]
+  rcases tndLoadFrom_setH (LBuf.start BinFmt.tndStartW BinFmt.tndStartH (BinFmt.tndClearsRows == 1)) s.height s.height d with
+    h | ⟨g, h1, h2, h3, h4, h5⟩
+  · left; rw [h]
+  · right
+    exact ⟨g, h1, h2, h3, h4, by rw [h5]; rfl⟩
 
 end IcyVerif.SauceLoad
